@@ -171,6 +171,9 @@ func init() {
 		in := fr.in
 		name := in.concreteString(args[0], "vChoice name")
 		n := int(in.concreteInt(args[1], "vChoice n"))
+		if k, ok := in.choices[name]; ok {
+			return in.intC(int64(k)) // a choice is a function of its name
+		}
 		k := in.choose(name, n)
 		in.choices[name] = k
 		in.inputs = append(in.inputs, InputRec{Name: name, Kind: "choice", Choice: k, N: n})
